@@ -217,10 +217,15 @@ CLAIMS: dict[str, tuple[str, str, str, str]] = {
         "objects on every run (harness/gen_regex.py -> MdIt/Generated/Regex.lean, run by Rx.ends in Python's backtracking order; T1 obligations: "
         "none of them matches the empty string, DIGITAL_RE matches only what int() accepts), for every value of the external functions (entity "
         "table, mdurl reformatting, normalizeLinkText, html option): nine of the twelve inline rules (tie: `inlinex` + regex sub-tie `rx`). "
+        "link_total (Props/C01i.lean) adds the link rule — ParserInline.skipToken with its position memo, parseLinkLabel, parseLinkDestination, "
+        "parseLinkTitle, references, the nested tokenize of the label, delimiter scopes and the second chain over all scopes — under a two-mode "
+        "contract (silent and normal calls; every memo entry points forward; the scope stack is restored): ten of the twelve inline rules, for "
+        "every source, rule subset, maxNesting, reference table and external functions; the two loops the code runs without a progress test "
+        "(tokenize, parseLinkLabel) provably move forward (tie: `inlinel`, 2k/50k strings, 70% of them with links). "
         "On the block side m_total (Props/C01h.lean) adds html_block (HTML_SEQUENCES translated from the live pattern objects) and lheading "
         "(setext scan with its terminator chain; the parentType it leaves behind on a miss is modelled): nine of the eleven block rules, any subset, "
         "either value of the html option (tie: `mblock`, 3k/80k documents). "
-        "MISSING: for the other rules (table, reference; link, image, linkify) the "
+        "MISSING: for the other rules (table, reference; image, linkify) the "
         "contracts stay hypotheses, monitored on every "
         "call of every real rule (harness/monitor.py, ~47k rule calls per quick run); renderer/CLI totality "
         "and the CPython stack limit by oracle (time-limited sweeps: random x configurations, bounded-exhaustive "
